@@ -89,6 +89,7 @@ func (noNetwork) GetRequestResponseProtocol(string, time.Duration, uint64) *netw
 
 type server struct {
 	id   int
+	disk *simdisk.Disk
 	bs   *state.BlockState
 	svc  *gsync.SyncService
 	ref  *cu.RefTree
@@ -117,17 +118,18 @@ type client struct {
 }
 
 type ssim struct {
-	k       *kernel.K
-	genesis *types.Header
-	root    common.Hash // state root shared by all blocks (the stub runtime changes nothing)
-	blocks  []*cu.RefBlock
-	all     *cu.RefTree
-	servers []*server
-	cl      *client
-	salt    int
-	main    map[common.Hash]bool // blocks of the main chain (the only ones with valid justifications)
-	just    bool                 // per-run knob: responses may carry justifications that finalise during a round
-	stray   bool                 // per-run knob: responses may be well-formed chain pieces nobody asked for
+	lastDisk *simdisk.Disk // the disk of the block state created last (newBlockState)
+	k        *kernel.K
+	genesis  *types.Header
+	root     common.Hash // state root shared by all blocks (the stub runtime changes nothing)
+	blocks   []*cu.RefBlock
+	all      *cu.RefTree
+	servers  []*server
+	cl       *client
+	salt     int
+	main     map[common.Hash]bool // blocks of the main chain (the only ones with valid justifications)
+	just     bool                 // per-run knob: responses may carry justifications that finalise during a round
+	stray    bool                 // per-run knob: responses may be well-formed chain pieces nobody asked for
 }
 
 func peerOf(i int) peer.ID { return peer.ID(fmt.Sprintf("srv-%d", i)) }
@@ -145,7 +147,8 @@ func (s *ssim) produce(parent *cu.RefBlock) *cu.RefBlock {
 }
 
 func (s *ssim) newBlockState() (*state.BlockState, *state.InmemoryStorageState) {
-	db := simdisk.NewDisk().Open()
+	s.lastDisk = simdisk.NewDisk()
+	db := s.lastDisk.Open()
 	tries := state.NewTries()
 	bs, err := state.NewBlockStateFromGenesis(db, tries, s.genesis, noTelemetry{})
 	if err != nil {
@@ -215,7 +218,7 @@ func runSync(k *kernel.K) {
 	nsrv := k.Range(1, 3, "servers")
 	for i := 0; i < nsrv; i++ {
 		bs, _ := s.newBlockState()
-		sv := &server{id: i, bs: bs, has: map[common.Hash]bool{g.Hash: true}, ref: cu.NewRefTree(&cu.RefBlock{Hash: g.Hash, Header: s.genesis}), fin: g.Hash, seen: map[string]int{}}
+		sv := &server{id: i, disk: s.lastDisk, bs: bs, has: map[common.Hash]bool{g.Hash: true}, ref: cu.NewRefTree(&cu.RefBlock{Hash: g.Hash, Header: s.genesis}), fin: g.Hash, seen: map[string]int{}}
 		sv.svc = gsync.NewSyncService(gsync.WithBlockState(bs), gsync.WithNetwork(noNetwork{}))
 		sv.byz = i > 0 && k.Bool(1, 2, "byzantine-server")
 		for _, b := range s.blocks[1:] {
@@ -356,7 +359,50 @@ func runSync(k *kernel.K) {
 				path := sv.ref.PathFrom(sv.ref.Root, nb.Hash)
 				if len(path) > 1 {
 					t := path[k.Choose(len(path)-1, "server-fin-target")+1]
-					if err := sv.bs.SetFinalisedHash(t, uint64(s.salt), 0); err == nil {
+					if k.Bool(1, 2, "request-served-during-finalisation") {
+						// a peer's request is served (by another goroutine of the node, which takes no lock of the
+						// block state) between two database writes of the finalisation: the blocks that move from
+						// memory to the database must be readable at every such moment
+						after := k.Choose(12, "served-after-write")
+						first := path[1]
+						mx := uint32(len(path))
+						before := k.Bool(1, 2, "served-just-before-the-write")
+						serve := func() {}
+						sv.disk.Observer = func(int) {
+							if !before {
+								serve()
+							}
+						}
+						sv.disk.OnWrite = func(*simdisk.Record) (error, bool) {
+							if before {
+								serve() // the record (a single put or a whole batch) is not on the disk yet
+							}
+							return nil, false
+						}
+						serve = func() {
+							if after > 0 {
+								after--
+								return
+							}
+							serve = func() {}
+							var req *messages.BlockRequestMessage
+							if n, ok := s.numberOf(first); ok && k.Bool(1, 2, "served-by-number") {
+								req = messages.NewBlockRequest(*messages.NewFromBlock(n), mx, messages.BootstrapRequestData, messages.Ascending)
+							} else {
+								// from the block finalised before, which is in the database already
+								req = messages.NewBlockRequest(*messages.NewFromBlock(path[0]), mx+1, messages.BootstrapRequestData, messages.Ascending)
+							}
+							resp, err := sv.svc.CreateBlockResponse(peer.ID("during-finalisation"), req)
+							k.Event("request", "srv%d %s between the writes of a finalisation -> %v", sv.id, reqStr(req), err != nil)
+							k.Fault("request-served-during-finalisation")
+							if err == nil {
+								s.checkServed(sv, req, resp, "during-finalisation")
+							}
+						}
+					}
+					err := sv.bs.SetFinalisedHash(t, uint64(s.salt), 0)
+					sv.disk.Observer, sv.disk.OnWrite = nil, nil
+					if err == nil {
 						sv.ref.Finalise(t)
 						sv.fin = t
 						if s.just && s.main[t] {
